@@ -470,3 +470,62 @@ func VerifH_C05_wireFields() {
 	}
 	verifCover("done")
 }
+
+// VerifH_C05_wireTCPProbe: the fin / null / xmas / flags commands (CMD 0..3): one probe pulled from
+// the pipeline the command built carries exactly the flag set of that scan (FIN; none;
+// FIN+PSH+URG; the parsed --flags list), the target address and port, both link modes.
+func VerifH_C05_wireTCPProbe() {
+	wireReset()
+	wireRec, wirePerr = nil, nil
+	wireGateway = true
+	defer func() { wireGateway = false }()
+	var frames [][]byte
+	wireProbe = func(conf *packetScanConfig) {
+		ctx, cancel := context.WithCancel(context.Background())
+		defer cancel()
+		r := conf.scanRange
+		r.DstSubnet = &net.IPNet{IP: net.IPv4(192, 168, 0, 7).To4(), Mask: net.CIDRMask(32, 32)}
+		r.Ports = []*scan.PortRange{{StartPort: 8443, EndPort: 8443}}
+		for p := range conf.scanMethod.Packets(ctx, &r) {
+			verifAssert(p.Err == nil && p.Buf != nil, "probe could not be built")
+			if p.Err == nil && p.Buf != nil {
+				frames = append(frames, append([]byte{}, p.Buf.Bytes()...))
+			}
+		}
+	}
+	var err error
+	var want byte
+	switch verifParam("CMD", 0) {
+	case 0:
+		c := newTCPFINCmd()
+		err, want = c.cmd.RunE(c.cmd, nil), 0x01
+	case 1:
+		c := newTCPNULLCmd()
+		err, want = c.cmd.RunE(c.cmd, nil), 0x00
+	case 2:
+		c := newTCPXmasCmd()
+		err, want = c.cmd.RunE(c.cmd, nil), 0x29
+	case 3:
+		c := newTCPFlagsCmd()
+		err, want = c.cmd.RunE(c.cmd, nil), 0x11 // the parse seam leaves --flags fin,ack
+	}
+	wireProbe = nil
+	verifAssert(err == nil, "command failed before the engine start")
+	verifAssert(len(frames) == 1, "a single-address single-port target does not yield exactly one probe")
+	if len(frames) != 1 {
+		return
+	}
+	b := frames[0]
+	off := 14
+	if wireVPN {
+		off = 0
+	}
+	verifAssert(len(b) >= off+40, "probe shorter than its headers")
+	if len(b) < off+40 {
+		return
+	}
+	t := off + 20
+	verifAssert(b[off+9] == 6 && b[off+16] == 192 && b[off+19] == 7 && int(b[t+2])<<8|int(b[t+3]) == 8443, "not a TCP probe to the target address and port")
+	verifAssert(b[t+13] == want && b[t+12]&1 == 0, "the probe does not carry exactly the TCP flags of this scan")
+	verifCover("done")
+}
